@@ -27,7 +27,7 @@ pub fn lexemes(kind: &str, k: SyntaxKind) -> Vec<String> {
         "DISCARD_IDENT" => &["_", "_x"],
         "U_IDENT" => &["A", "Foo", "B1"],
         "BAD_U_IDENT" => &["A_b", "Foo_"],
-        "FLOAT" => &["1.0", "1.5e3", "0.1"],
+        "FLOAT" => &["1.0", "1.5e3", "0.1", "1_0.5", "0.1e-3", "1.0_1"],
         "INTEGER" => &["1", "0", "1_000", "0x1", "0b1"],
         "STRING" => &["\"s\"", "\"\"", "\"é\\\"💣\"", "\"a\nb\"", "\"\\ℝ\"", "\"\\💣x\"", "\"c:\\日本\"", "\"日本\"", "\"héé\"", "\"\\\\\"",
                       // escapes, well-formed and not (any character may follow a backslash as far as the lexer is concerned)
